@@ -1,2 +1,136 @@
-(* Property C16 *)
-From Coq Require Import ZArith List.
+(* Property C16 - XML parsing is total and safe; serialising then parsing is identity; copies of
+   element values are independent of their source.
+
+   Clause of the property statement                         -> theorem below
+   -------------------------------------------------------------------------------------------
+   "terminates for every NUL-terminated byte string"        -> xml_parse_terminates
+        (no hypothesis on the nesting depth is needed in the model: the fuel 2*|s|+4 given to the
+         recursive descent is never used up; the C++ call stack itself is validated by the
+         depth-1000 cases of the correspondence run only)
+   "reads nothing beyond the terminator"                    -> xml_parse_in_bounds
+        (every read of the model is a checked read of the list s ++ [0]; Oob = read from [])
+   "either yields an element or reports failure with a line
+    and column that lie inside the text"                    -> xml_error_position_inside_text,
+                                                               xml_parse_total_and_safe (all three)
+   "accepts comments wherever white space is allowed"       -> xml_comment_skipped_like_white_space,
+                                                               xml_tokenizer_depends_on_text_only,
+                                                               xml_comment_in_front_of_any_token
+   "(and processing instructions before the root element)"  -> xml_pi_before_root_skipped
+   "for every element tree with well-formed names, arbitrary
+    attribute values and non-blank, non-adjacent text nodes,
+    parsing the output of toString yields the same names,
+    attribute order and values, text and nesting"           -> xml_roundtrip   (full, layer 3)
+        layer 1: escape_unescape_inverse, escape_output_is_safe (against the regenerated tables)
+        layer 2: xml_attribute_value_roundtrip, xml_text_node_roundtrip
+   "copies of element values are independent of their
+    source"                                                 -> see the handle theorems at the end
+
+   Only statements closed by `exact`, each followed by Print Assumptions, plus non-vacuity
+   Examples. *)
+From Coq Require Import ZArith List Bool.
+From Xml Require Import Gen_Xml XmlSpec XmlModel XmlProofsCodec XmlProofsScan XmlProofsTotal XmlProofsRound XmlProofsComment.
+Import ListNotations.
+Local Open Scope Z_scope.
+
+(* ---- totality, bounds, error positions ---------------------------------------------------- *)
+
+Theorem xml_parse_terminates : forall s : list Z, parse s <> Fuel.
+Proof. exact parse_terminates. Qed.
+Print Assumptions xml_parse_terminates.
+
+Theorem xml_parse_in_bounds : forall s : list Z, parse s <> Oob.
+Proof. exact parse_in_bounds. Qed.
+Print Assumptions xml_parse_in_bounds.
+
+Theorem xml_error_position_inside_text : forall s l c m, parse s = Syn l c m -> inside_text s l c.
+Proof. exact parse_error_inside. Qed.
+Print Assumptions xml_error_position_inside_text.
+
+Theorem xml_parse_total_and_safe : forall s : list Z,
+  match parse s with
+  | Ok _ => True
+  | Syn l c _ => inside_text s l c
+  | Oob => False
+  | Fuel => False
+  end.
+Proof. exact parse_total_safe. Qed.
+Print Assumptions xml_parse_total_and_safe.
+
+(* the input that used to loop forever, <a>x<!--c-->y</a>, is covered (and terminates) *)
+Example ex_comment_before_text :
+  parse [60;97;62;120;60;33;45;45;99;45;45;62;121;60;47;97;62] = Ok (N 1 1 [97] [] [T [120]; T [121]]).
+Proof. vm_compute. reflexivity. Qed.
+
+(* "<a>" LF "<b" : the error is reported at line 2, column 3 = the position of offset 6 = |s| *)
+Example ex_error_position : parse [60;97;62;10;60;98] = Syn 2 3 EEof /\ inside_text [60;97;62;10;60;98] 2 3.
+Proof. split; [vm_compute; reflexivity|]. exists 6%nat. split; [apply le_n|vm_compute; reflexivity]. Qed.
+
+Example ex_error_newline_in_string : parse [60;97;32;107;61;34;118;62;10] = Syn 1 6 ENewline.
+Proof. vm_compute. reflexivity. Qed.
+
+(* ---- comments and processing instructions ------------------------------------------------- *)
+
+Theorem xml_comment_skipped_like_white_space : forall b r o l s, comment_body b = true ->
+  exists o' l' s', skipSp false (comment b ++ r) o l s = skipSp false r o' l' s'.
+Proof. exact skipSp_comment. Qed.
+Print Assumptions xml_comment_skipped_like_white_space.
+
+Theorem xml_tokenizer_depends_on_text_only : forall p p', rest p = rest p' -> tok_rel (readToken p) (readToken p').
+Proof. exact readToken_rest_indep. Qed.
+Print Assumptions xml_tokenizer_depends_on_text_only.
+
+Theorem xml_comment_in_front_of_any_token : forall b p p', comment_body b = true ->
+  rest p = comment b ++ rest p' -> tok_rel (readToken p) (readToken p').
+Proof. exact readToken_comment. Qed.
+Print Assumptions xml_comment_in_front_of_any_token.
+
+Theorem xml_pi_before_root_skipped : forall f p a r, pi_body a = true -> rest p = [60; 63] ++ a ++ [63; 62] ++ r ->
+  prolog (S f) p = bind (skipSpace (mkPos r (off p + 2 + (zlen a + 2)) (line p) (ls p))) (fun q1 => prolog f q1).
+Proof. exact prolog_pi. Qed.
+Print Assumptions xml_pi_before_root_skipped.
+
+Example ex_comment_body : comment_body [99;45;45;10;60] = true /\ pi_body [120;109;108;32;61;34] = true.
+Proof. split; vm_compute; reflexivity. Qed.
+
+(* <?x?><!--c---><a <!--LF-->/>  : a processing instruction, a comment before the root, a comment inside the tag *)
+Example ex_comments_and_pi :
+  parse ([60;63;120;63;62] ++ comment [99;45] ++ [60;97;32] ++ comment [10] ++ [47;62]) = Ok (N 1 15 [97] [] []).
+Proof. vm_compute. reflexivity. Qed.
+
+(* ---- round trip --------------------------------------------------------------------------- *)
+
+(* layer 1 *)
+Theorem escape_unescape_inverse : forall v, wf_value v = true -> unescape (escape v) = v.
+Proof. exact unescape_escape. Qed.
+Print Assumptions escape_unescape_inverse.
+
+Theorem escape_output_is_safe : forall v, wf_value v = true -> forallb safe_out (escape v) = true.
+Proof. exact escape_safe. Qed.
+Print Assumptions escape_output_is_safe.
+
+(* layer 2 *)
+Theorem xml_attribute_value_roundtrip : forall p v z, rest p = 34 :: escape v ++ 34 :: z -> wf_value v = true ->
+  exists tk q, readToken p = Ok (tk, q) /\ tty tk = TStr /\ tval tk = v /\ rest q = z.
+Proof. exact readToken_string. Qed.
+Print Assumptions xml_attribute_value_roundtrip.
+
+Theorem xml_text_node_roundtrip : forall f acc p t z, wf_text t = true -> rest p = escape t ++ 60 :: z -> In 0 z ->
+  exists q, parseContent (S f) acc p = parseContent f (T t :: acc) q /\ rest q = 60 :: z.
+Proof. exact text_rt. Qed.
+Print Assumptions xml_text_node_roundtrip.
+
+(* layer 3: the whole statement *)
+Theorem xml_roundtrip : forall e, wf_tree e = true -> exists e', parse (toString e) = Ok e' /\ erase e' = erase e.
+Proof. exact roundtrip_ok. Qed.
+Print Assumptions xml_roundtrip.
+
+Example ex_codec : unescape (escape [34;38;10;13;60;62;39;1;255;38;35;54;53;59]) = [34;38;10;13;60;62;39;1;255;38;35;54;53;59]
+                   /\ wf_value [34;38;10;13;60;62;39;1;255;38;35;54;53;59] = true.
+Proof. split; vm_compute; reflexivity. Qed.
+
+(* <a k="&quot;&amp;&#10;&#13;&lt;&apos;" l=""> x&amp;<b/>&#10;y</a> *)
+Example ex_roundtrip :
+  let e := N 0 0 [97] [([107], [34;38;10;13;60;39]); ([108], [])] [T [32;120;38]; N 0 0 [98] [] []; T [10;121]] in
+  wf_tree e = true /\
+  roundtrip e = Ok (N 2 1 [97] [([107], [34;38;10;13;60;39]); ([108], [])] [T [32;120;38]; N 2 52 [98] [] []; T [10;121]]).
+Proof. split; vm_compute; reflexivity. Qed.
